@@ -54,3 +54,15 @@ pub fn c02_mask(s: &str) -> String {
     }
     o
 }
+
+/// Whether source format `f` can spell value `v` (used by C11's planted constructs).
+pub fn c11_can_spell(f: fmts::Fmt, v: &model::Val) -> bool {
+    use fmts::Fmt;
+    use model::Val;
+    match f {
+        Fmt::Json => v.is_common(),
+        Fmt::Yaml => !v.any(|x| matches!(x, Val::Bytes(_) | Val::F32(_) | Val::Ext(..) | Val::Datetime(_))),
+        Fmt::Msgpack => !v.any(|x| matches!(x, Val::Datetime(_)) || matches!(x, Val::Int(i) if *i >= (1i128 << 64) || *i < -(1i128 << 63))),
+        Fmt::Toml => v.toml_ok(),
+    }
+}
